@@ -97,6 +97,32 @@ def mutator_table():
             return [etree.fromstring(etree.tostring(ed))[0]]
         return [o2]
 
+    def other_event_type(rng, e, o):
+        """A newer definition of event type e that lives in another ontology: one more concept association (or relation,
+        attachment, property), version + 1. EventType.update() adopts the new sub-elements."""
+        from lxml import etree
+        doc = etree.fromstring('<edxml xmlns="http://edxml.org/edxml" version="3.0.0"/>')
+        doc.append(o.generate_xml())
+        o2 = Ontology.create_from_xml(etree.fromstring(etree.tostring(doc))[0])
+        e2 = o2.get_event_type(e.get_name())
+        what = rng.choice(['assoc', 'assoc', 'attachment', 'property'])
+        if what == 'assoc':
+            props = list(e2.get_properties().values())
+            concepts = list(o2.get_concepts().keys())
+            if props and concepts:
+                p = rng.choice(props)
+                free = [c for c in concepts if c not in p.get_concept_associations()]
+                if free:
+                    p.identifies(rng.choice(free), rng.randint(1, 9))
+        elif what == 'attachment':
+            e2.create_attachment('upg%d' % rng.randint(0, 5))
+        else:
+            name = 'u%d' % rng.randint(0, 3)
+            if name not in e2.get_properties():
+                e2.create_property(name, 'o.str').make_optional()
+        e2.set_version(e.get_version() + 1)
+        return [e2]
+
     def prop_name(rng, e, o):
         return [rng.choice(['p', 'q', 'zz'])]
 
@@ -111,6 +137,7 @@ def mutator_table():
         ('Ontology', 'delete_object_type'): ('set', lambda r, e, o: [r.choice(['o.n0', 'o.n1', 'nope'])]),
         ('Ontology', 'clear'): ('clear', none),
         ('Ontology', 'update'): ('set', other_ontology),
+        ('EventType', 'update'): ('set', other_event_type),
         ('EventType', 'create_property'): ('always', lambda r, e, o: ['n%d' % r.randint(0, 3), 'o.str']),
         ('EventType', 'remove_property'): ('set', lambda r, e, o: [r.choice(['n0', 'n1', 'nope'])]),
         ('EventType', '__delitem__'): ('set', lambda r, e, o: [r.choice(['n0', 'n2'])]),
@@ -193,12 +220,12 @@ def mutator_table():
         ('EventSource', 'set_version'): ('set', n),
     }
     # mutators that need another definition of the same kind are exercised through Ontology.update
-    via_update = {('EventType', 'update'), ('EventProperty', 'update'), ('PropertyConcept', 'update'),
+    via_update = {('EventProperty', 'update'), ('PropertyConcept', 'update'),
                   ('PropertyRelation', 'update'), ('EventTypeParent', 'update'), ('EventTypeAttachment', 'update'),
                   ('ObjectType', 'update'), ('Concept', 'update'), ('EventSource', 'update'),
                   ('EventType', 'add_property'), ('EventType', 'add_relation'), ('EventProperty', 'add_associated_concept'),
                   ('EventType', 'make_child'), ('EventType', 'make_parent'), ('EventProperty', 'relate_inter'),
-                  ('EventProperty', 'relate_intra'), ('EventType', 'clear'), ('EventType', 'update')}
+                  ('EventProperty', 'relate_intra'), ('EventType', 'clear')}
     return t, via_update
 
 
